@@ -25,11 +25,15 @@ class Collector:
             res.update(SS.model_scalars(out, others))
         return res
 
-    def check_path(self, props, label='', extra=None, group=True, witnesses=None):
+    def check_path(self, props, label='', extra=None, group=True, witnesses=None, pins=None):
         """props: list of (name, z3 Bool) that must hold on this path (under EX.pc).  In-bounds/engine obligations of the
         path are added.  All are tried as one conjunction first and split only when not unsat."""
         props = list(props) + [(n, p) for (n, p) in EX.obligations]
         props = [(n, p if not isinstance(p, bool) else z3.BoolVal(p)) for n, p in props]
+        # pins: optional list of constraints fixing every input to constants.  When a query comes back unknown/timeout the same query is
+        # retried under each pin (a ground query the solver decides at once): `sat` yields a counterexample; the obligation is never
+        # counted as discharged on that basis
+        self._pins = list(pins or [])
         if not props:
             return
         self.nontrivial += 1
@@ -39,7 +43,14 @@ class Collector:
             n, p = props[len(props) // 2]
             self.samples.append({'path': label, 'obligation': n, 'smt': z3.simplify(p).sexpr()[:400]})
         conj = z3.And(*[p for _, p in props]) if len(props) > 1 else props[0][1]
-        remaining = list(props)
+        # obligations that are literally `true` (concrete pixels checked by the harness itself, term identities that simplify away)
+        # need no query
+        remaining = []
+        for n, p in props:
+            if z3.is_true(p) or (p.num_args() < 50 and z3.is_true(z3.simplify(p))):
+                self.n_dis += 1
+            else:
+                remaining.append((n, p))
         if not group:
             # every obligation in its own query (nonlinear arithmetic: a conjunction is much harder than its parts)
             for n, p in remaining:
@@ -47,31 +58,8 @@ class Collector:
                 r1, out1, dt1 = EX.solve([z3.Not(p)] + blockers, cap_s=self.cap)
                 self._one(n, label, r1, out1, extra, formulas=[z3.Not(p)] + blockers)
             remaining = []
-        for _round in range(6):
-            if not remaining:
-                break
-            cj = z3.And(*[p for _, p in remaining]) if len(remaining) > 1 else remaining[0][1]
-            self.queries += 1
-            r, out, dt = EX.solve([z3.Not(cj)] + blockers, cap_s=self.cap, eval_named=remaining)
-            if r == 'unsat':
-                self.n_dis += len(remaining); remaining = []
-            elif r == 'sat':
-                false = set(out.get('false') or [])
-                if not false:
-                    false = {remaining[0][0]}
-                first = True
-                for n in [n for n, _ in remaining if n in false]:
-                    if first:
-                        self.cex.append({'name': n, 'path': label, 'inputs': self._model(out), 'extra': extra,
-                                         'also_false': sorted(false)[:6]})
-                        first = False
-                remaining = [(n, p) for n, p in remaining if n not in false]
-            else:
-                for n, _ in remaining:
-                    self.inconclusive.append('%s@%s: %s' % (n, label, (out or {}).get('why', 'unknown')))
-                remaining = []
-        for n, _ in remaining:
-            self.inconclusive.append('%s@%s: not decided (too many failing obligations on this path)' % (n, label))
+        self._t_path = 0.0          # solver time spent on timed-out conjunctions of this path (bounds the splitting)
+        self._grouped(remaining, blockers, label, extra, depth=0)
         # known findings: confirm each open one separately (so that it is reported, and only it is blocked)
         for k in self.block:
             if k in self.known and not any(c.get('known') == k for c in self.cex):
@@ -86,6 +74,60 @@ class Collector:
             rw, _, _ = EX.solve([wp], cap_s=self.cap, want_model=False)
             self.witness[wn] = rw
 
+    def _grouped(self, remaining, blockers, label, extra, depth):
+        """conjunction first; `sat`: record the counterexample and retry without the false obligations; timeout/unknown on a
+        conjunction of several obligations: split it (a conjunction can be much harder than its parts), at most 3 levels"""
+        for _round in range(6):
+            if not remaining:
+                return
+            cj = z3.And(*[p for _, p in remaining]) if len(remaining) > 1 else remaining[0][1]
+            self.queries += 1
+            r, out, dt = EX.solve([z3.Not(cj)] + blockers, cap_s=self.cap, eval_named=remaining)
+            if r == 'unsat':
+                self.n_dis += len(remaining); return
+            if r == 'sat':
+                false = set(out.get('false') or [])
+                if not false:
+                    false = {remaining[0][0]}
+                first = True
+                for n in [n for n, _ in remaining if n in false]:
+                    if first:
+                        self.cex.append({'name': n, 'path': label, 'inputs': self._model(out), 'extra': extra,
+                                         'also_false': sorted(false)[:6]})
+                        first = False
+                remaining = [(n, p) for n, p in remaining if n not in false]
+                continue
+            self._t_path += dt or 0
+            if len(remaining) > 1 and depth < 3 and self._t_path < 5 * self.cap:
+                k = max(1, (len(remaining) + 3) // 4)
+                for i in range(0, len(remaining), k):
+                    self._grouped(remaining[i:i + k], blockers, label, extra, depth + 1)
+                return
+            for n, p in remaining:
+                if not self._try_pins(n, p, blockers, label, extra):
+                    self.inconclusive.append('%s@%s: %s' % (n, label, (out or {}).get('why', 'unknown')))
+            return
+        for n, _ in remaining:
+            self.inconclusive.append('%s@%s: not decided (too many failing obligations on this path)' % (n, label))
+
+    def _pin_formulas(self, n, label, formulas, extra):
+        for pin in getattr(self, '_pins', []):
+            self.queries += 1
+            r, out, dt = EX.solve(list(formulas) + [pin], cap_s=min(self.cap, 30))
+            if r == 'sat':
+                self.cex.append({'name': n, 'path': label, 'inputs': self._model(out), 'extra': extra, 'found_with': 'pinned inputs'})
+                return True
+        return False
+
+    def _try_pins(self, n, p, blockers, label, extra):
+        for pin in getattr(self, '_pins', []):
+            self.queries += 1
+            r, out, dt = EX.solve([z3.Not(p), pin] + blockers, cap_s=min(self.cap, 30))
+            if r == 'sat':
+                self.cex.append({'name': n, 'path': label, 'inputs': self._model(out), 'extra': extra, 'found_with': 'pinned inputs'})
+                return True
+        return False
+
     def _one(self, n, label, r, out, extra, formulas=None):
         if r == 'unsat':
             self.n_dis += 1
@@ -97,6 +139,8 @@ class Collector:
                 if r2 == 'sat':
                     out = out2
             self.cex.append({'name': n, 'path': label, 'inputs': self._model(out), 'extra': extra})
+        elif formulas is not None and self._pin_formulas(n, label, formulas, extra):
+            pass
         else:
             self.inconclusive.append('%s@%s: %s' % (n, label, (out or {}).get('why', 'unknown')))
 
